@@ -9,6 +9,7 @@ oracle        : harness/en_oracle.py - the CCG schemata re-stated in Python on t
                 the result come from the inputs, bx/gbx never over a bare N/NP; conversely identical-parts premises yield
                 their result)
 """
+import env
 import os, subprocess, time, itertools, multiprocessing as mp
 import gen, common, en_oracle as O
 from env import COQ
@@ -383,7 +384,7 @@ def compile_table(ctx, cats, labels):
         fn = os.path.join(ctx.work, f'T{k}.v')
         with open(fn, 'w') as f:
             f.write(head + f'Definition t{k} : list cat := [\n' + ';\n'.join(gcat(c) for c in p) + '].\n')
-        procs.append(subprocess.Popen(['timeout', '600', 'coqc'] + flags + [fn], stdout=subprocess.PIPE, stderr=subprocess.STDOUT, text=True))
+        procs.append(subprocess.Popen(['timeout', '600', env.COQC] + flags + [fn], stdout=subprocess.PIPE, stderr=subprocess.STDOUT, text=True))
         if len(procs) % NPROC == 0:
             for q in procs:
                 q.wait()
@@ -397,7 +398,7 @@ def compile_table(ctx, cats, labels):
             f.write(f'Definition TSIZE : N := {n}.\n')
             f.write('Definition L : list cres := [' + ';\n'.join(
                 f'{{| rcat := Atom [] FNone; op_string := {lit(a)}; op_symbol := {lit(b)}; head_is_left := {gbool(h)} |}}' for (a, b, h) in labels) + '].\n')
-        rc, out, err, _ = common.sh(['timeout', '600', 'coqc'] + flags + [fn])
+        rc, out, err, _ = common.sh(['timeout', '600', env.COQC] + flags + [fn])
         ok = rc == 0
         outs.append(out + err)
     ctx.obligation('correspondence: category table compiles', ok, '' if ok else '\n'.join(outs)[-1500:])
